@@ -147,6 +147,17 @@ theorem filter_friProverLayers (L : Nat) : ∀ (k i : Nat), i + k ≤ L →
     simp [hne, ih]
 
 -- ====================================================================================== absorbed messages
+/-- the message of an event, if it is one -/
+def msgOf : Event → Option Msg
+  | .msg m => some m
+  | _ => none
+
+theorem msgs_protoFri : ∀ (k i : Nat),
+    (protoFri i k).filterMap msgOf ++ [.remainderCommitment] = friCommitmentsFrom i k
+  | 0, _ => rfl
+  | k + 1, i => by
+    simp [protoFri, friCommitmentsFrom, msgOf, List.filterMap_cons, ← msgs_protoFri k (i + 1)]
+
 theorem absorbedMsgs_append : ∀ (a b : List CoinOp), absorbedMsgs (a ++ b) = absorbedMsgs a ++ absorbedMsgs b
   | [], _ => rfl
   | op :: a, b => by
